@@ -41,6 +41,34 @@ FLOAT_KINDS = ["py", "float64", "float32"]
 MAP_OPS = ("subtree", "tosub")
 
 
+# per-node attributes beyond the seven SWC columns: `Tree(n, ..., key=array)` takes any array whose first axis is the node axis, `Node[key]` is its
+# row - a scalar (ndim 1: eswc level / mode / timestamp), a vector (ndim 2: colour, direction, embedding) or a small matrix (ndim 3)
+COL_TAILS = [[2], [3], [1], [4], [2, 2], [3, 2], [], [2, 1, 2], [3], [0]]
+ND_TAILS = [t_ for t_ in COL_TAILS if t_ and 0 not in t_]
+COL_DTYPES = ["float32", "float64", "int32", "int64", "float32", "uint8", "bool"]
+
+
+def extra_cols(rng, k):
+    """the specs of 2-3 extra per-node columns, at least one of them with ndim >= 2 (round-robin over the tails by k)"""
+    specs = []
+    for j in range(rng.randint(2, 3)):
+        tail = COL_TAILS[(k + j * 3) % len(COL_TAILS)] if j else ND_TAILS[k % len(ND_TAILS)]
+        specs.append({"name": f"a{j}_" + ("x".join(map(str, tail)) or "s"), "tail": tail, "dtype": rng.choice(COL_DTYPES),
+                      "mul": rng.choice([1, 1, 2, 3]), "off": rng.choice([0, 0.25, 1, 7, -3.5])})
+    return specs
+
+
+def col_values(spec, n):
+    """the column of a spec for n nodes: every component of every node holds a value of its own (node-major counter, scaled and shifted)"""
+    size = int(np.prod(spec["tail"], dtype=int)) if spec["tail"] else 1
+    a = np.arange(n * size, dtype=np.float64).reshape([n] + list(spec["tail"])) * spec["mul"] + spec["off"]
+    if spec["dtype"] == "bool":
+        return (np.floor(a) % 3 == 0) ^ (np.arange(n).reshape([n] + [1] * len(spec["tail"])) % 2 == 1)
+    if spec["dtype"] == "uint8":
+        return (np.floor(a) % 251).astype(np.uint8)
+    return a.astype(spec["dtype"])
+
+
 def as_param(v, kind):
     return v if kind in (None, "py") else getattr(np, kind)(v)
 
@@ -276,6 +304,42 @@ class Ops(Suite):
                             case["derive"] = rng.choice(["sort", f"redirect:{rng.randrange(1, nn)}"])
                             case["class"] = f"{shape}/{steps[-1]['op']}/reuse/derived"
                         out.append(case)
+        # trees that carry additional per-node attributes of ANY dimensionality (vectors, small matrices, next to scalar ones), through every
+        # operation and entry point: the survivors keep all their attributes, whatever their shape. (Own block with its own counter, after
+        # everything else: the cases above are the same as before for a given seed.)
+        k = 0
+        for n in ([2, 3, 5, 6, 9, 14, 23] if not big else [2, 3, 4, 5, 6, 8, 11, 16, 24, 40, 70, 120]):
+            for _ in range(1 if not big else 3):
+                shape = gen.pick_shape(rng, k + 2); k += 1
+                t = lattice_tree(rng, n, shape)
+                nn = t["n"]
+                cols = extra_cols(rng, k)
+                nd = max(len(c["tail"]) for c in cols) + 1
+                ops = [{"op": "subtree", "n": rng.randrange(nn), "via": rng.choice(["func", "node"])},
+                       {"op": "subtree", "n": rng.randrange(nn), "via": rng.choice(["func", "node"])}]
+                if nn > 1:
+                    ops += [{"op": "tosub", "rm": rng.sample(range(1, nn), rng.randint(0, min(4, nn - 1))), "rmkind": rng.choice(RMKINDS)},
+                            {"op": "tosub", "rm": rng.sample(range(1, nn), rng.randint(1, min(2, nn - 1))), "rmkind": rng.choice(RMKINDS)},
+                            {"op": "cutenter", "rm": rng.sample(range(1, nn), rng.randint(0, min(3, nn - 1)))},
+                            {"op": "cutdepth", "d": rng.randint(1, 5)},
+                            {"op": "cutleave", "h": rng.randint(0, 2)},
+                            {"op": "cuttype", "t": rng.choice(sorted(set(t["types"])))},
+                            {"op": "cutorder", "m": rng.randint(1, 3)},
+                            {"op": "cuttip", "thre": rng.randint(0, 7)},
+                            {"op": "cutattr", "form": rng.choice(["enter", "leave"])}]
+                for j, op in enumerate(ops):
+                    case = {"class": f"{shape}/{op['op']}/cols-{nd}d", "tree": t, "op": op, "cols": cols, "mapkind": ["list", "dict", None][(k + j) % 3]}
+                    if nn >= 3 and rng.random() < 0.25 and op["op"] != "cuttip":
+                        case["derive"] = rng.choice(["sort", f"redirect:{rng.randrange(1, nn)}"])
+                        case["class"] = f"{shape}/{op['op']}/derived/cols-{nd}d"
+                    if op["op"] == "cutattr":
+                        op["pred"] = self._pred(rng, t, "derive" in case)
+                    if op["op"] in ("cutenter", "cutdepth", "cutleave", "cutattr"):
+                        case["flag"] = FLAGS[(k + j) % len(FLAGS)]
+                    else:
+                        kinds = FLOAT_KINDS if op["op"] == "cuttip" else INT_KINDS
+                        case["pkind"] = kinds[(k + j) % len(kinds)]
+                    out.append(case)
         return out
 
     @staticmethod
@@ -314,8 +378,12 @@ class Ops(Suite):
         cols["r"] = ((np.arange(n0) + 1) / 8).astype(np.float32)
         cols["tag"] = (1000.0 + np.arange(n0)).astype(np.float32)
         cols["level"] = ((np.arange(n0) * 7) % 5).astype(np.int32)
+        specs = case.get("cols") or []
+        for c in specs:
+            cols[c["name"]] = col_values(c, n0)
         if case.get("derive"):
-            t.ndata["r"] = cols["r"]; t.ndata["tag"] = cols["tag"]; t.ndata["level"] = cols["level"]      # same (derived, queried) object
+            for c in ["r", "tag", "level"] + [c["name"] for c in specs]:
+                t.ndata[c] = cols[c]                                                                       # same (derived, queried) object
         else:
             t = Tree(n0, **cols)
         before = {k: t.get_ndata(k).copy() for k in t.keys()}
@@ -389,6 +457,10 @@ class Ops(Suite):
                "keys": sorted(str(c) for c in y.keys()),
                "tag": [float(v) for v in y.get_ndata("tag")] if "tag" in y.keys() else None,
                "level": [int(v) for v in y.get_ndata("level")] if "level" in y.keys() else None}
+        if specs:
+            # every additional column of the result, whole: its shape and its values
+            res["cols"] = {c["name"]: ({"shape": list(np.shape(y.get_ndata(c["name"]))), "vals": np.asarray(y.get_ndata(c["name"])).tolist()}
+                                       if c["name"] in y.keys() else None) for c in specs}
         if om is not None:
             res["container"] = dump_container(om)
         if k == "subtree" and op["n"] == 0 and case["tree"]["types"][0] == 1:
@@ -451,9 +523,19 @@ class Ops(Suite):
         return out
 
     def oracle(self, case, res):
+        try:
+            return self._oracle(case, res)
+        except Exception as e:  # noqa: BLE001 - a result that cannot even be read (wrong sizes, None where a column should be) is a finding
+            return [(f"{case['op']['op']}-malformed-result", f"{case['op']} on pids={case['tree']['pids']}: the result cannot be judged "
+                     f"({type(e).__name__}: {e}): {str(res)[:300]}")]
+
+    def _oracle(self, case, res):
+        if not isinstance(res, dict):
+            return [(f"{case['op']['op']}-malformed-result", f"{case['op']}: result {res!r}")]
         t, op = self._tree(case, res), case["op"]
         if "exc" in res:
-            return [(f"{op['op']}-raises", f"{op} on pids={t['pids']} raised {res['exc']}: {res.get('msg')}")]
+            cols = f" (extra columns {[(c['name'], c['tail'], c['dtype']) for c in case['cols']]})" if case.get("cols") else ""
+            return [(f"{op['op']}-raises", f"{op} on pids={t['pids']}{cols} raised {res['exc']}: {res.get('msg')}")]
         out = []
         root, kept = expected_kept(op, t)
         m = self._mapping(case, res)
@@ -462,6 +544,9 @@ class Ops(Suite):
         if sorted(m) != sorted(kept) or len(set(m)) != len(m):
             return [(f"{op['op']}-kept", f"{what}: survivors (old ids) {sorted(m)}, the rule designates {sorted(kept)}")]
         n2 = len(m)
+        for c in ("pid", "type", "xyz"):
+            if not isinstance(res[c], list) or len(res[c]) != n2:
+                return [(f"{op['op']}-attrs", f"{what}: column {c} of the result has {len(res[c]) if isinstance(res[c], list) else res[c]} rows, the result has {n2} nodes")]
         if res["id"] != list(range(n2)):
             out.append((f"{op['op']}-ids", f"{what}: ids {res['id'][:8]}"))
         new_of = {o: k for k, o in enumerate(m)}
@@ -476,6 +561,19 @@ class Ops(Suite):
             out.append((f"{op['op']}-extra-column-dropped", f"{what}: the result has columns {res.get('keys')}; the input also had 'tag' and 'level'"))
         elif res["tag"] != [1000.0 + o for o in m] or res["level"] != [(o * 7) % 5 for o in m]:
             out.append((f"{op['op']}-extra-column", f"{what}: extra columns of the survivors are {res['tag'][:6]}… / {res['level'][:6]}…, their nodes had {[1000.0 + o for o in m][:6]}… / {[(o * 7) % 5 for o in m][:6]}…"))
+        # ... and so does every additional attribute of any shape: row k of the result's column is the row of old node m[k], component by component
+        for c in case.get("cols") or []:
+            got = (res.get("cols") or {}).get(c["name"])
+            if got is None:
+                out.append((f"{op['op']}-extra-column-dropped", f"{what}: the result has columns {res.get('keys')}; the input also had '{c['name']}' "
+                            f"(shape (n, {c['tail']}), {c['dtype']})")); break
+            src = col_values(c, t["n"])
+            want = [src[o].tolist() for o in m]
+            if got["shape"] != [n2] + c["tail"] or got["vals"] != want:
+                bad = next((k for k in range(n2) if not isinstance(got["vals"], list) or k >= len(got["vals"]) or got["vals"][k] != want[k]), None)
+                out.append((f"{op['op']}-extra-column", f"{what}: attribute '{c['name']}' ({c['dtype']}, one {c['tail'] or 'scalar'} per node) comes back with shape "
+                            f"{got['shape']}" + ("" if bad is None else f"; new node {bad} (old {m[bad]}) has "
+                            f"{got['vals'][bad] if isinstance(got['vals'], list) and bad < len(got['vals']) else None}, it had {want[bad]}"))); break
         # the reported mapping is the WHOLE content of the caller's container: new id -> old id for the nodes of this result, and no other entry -
         # whatever the container held before (the results of earlier calls)
         mk = case.get("mapkind")
